@@ -1,7 +1,8 @@
 """C04 — no input makes the compiler crash or hang.
 R13 panic-site audit, R80 arity before callback calls, R82 parallel vectors, R83 closed word sets, R97 RefCell discipline,
 R76 grammar progress, R77 tokenizer progress, R78 forward jumps."""
-from .. import cfg, util, callgraph, panics, translator as TR
+import json
+from .. import cfg, util, callgraph, panics, variants, translator as TR
 from ..core import RuleResult, need
 from ..facts import callee, op_local, op_place, syn_macros, syn_walk
 from ..linear import Linear, LEN
@@ -58,6 +59,7 @@ def _base_of(fn, o, operand):
     return set(o.alias[l]) | {l}
 
 
+panics_IDX = "<alloc::vec::Vec<T, A> as core::ops::index::Index<I>>::index"
 STACK_CLASS = ("translator-stack", "\"BUG: stack underflow\": the translator pushes every operand this hook pops")
 
 
@@ -98,6 +100,33 @@ def discharge_local(F, fn, site, o, lin, facts_cache):
     t = fn.term(b)
     if kind == "assert" and detail.startswith("Overflow(Add usize") or detail.startswith("Overflow(Mul usize"):
         return "usize-counter", "usize length / counter arithmetic is bounded by the address space"
+    if kind == "panic":
+        # an arm that no value of the scrutinee can reach: the same place (read through a shared reference) is matched twice,
+        # and for every variant the two matches, taken consistently, do not lead here (`A | B => match x { A => .., B => ..,
+        # C => unreachable!() }`)
+        by_src = {}
+        for sb in range(len(fn.blocks)):
+            st = fn.term(sb)
+            if st["k"] == "switch" and st.get("enum") and "src" in st and not fn.is_cleanup(sb):
+                by_src.setdefault((st["enum"], st["src"]["l"], json.dumps(st["src"]["p"])), []).append(sb)
+        for (enum_, l_, pj), sws in by_src.items():
+            if len(sws) < 2:
+                continue
+            # the scrutinee must not be written in this function (a field behind a shared reference parameter, or a local assigned once)
+            proj = json.loads(pj)
+            whole = [1 for bb, j, pl, rv, m in fn.assigns() if pl["l"] == l_ and not pl["p"]]
+            partial = [1 for bb, j, pl, rv, m in fn.assigns() if pl["l"] == l_ and pl["p"] and
+                       (pl["p"][:len(proj)] == proj or proj[:len(pl["p"])] == pl["p"])]
+            mut_borrowed = [1 for bb, j, pl, rv, m in fn.assigns() if rv["k"] in ("ref", "rawptr") and rv["place"]["l"] == l_ and rv.get("mut", True)
+                            and (rv["place"]["p"][:len(proj)] == proj or proj[:len(rv["place"]["p"])] == rv["place"]["p"])]
+            call_dests = [1 for bb, tt in fn.calls() if tt["dest"]["l"] == l_]
+            stable_local = len(whole) + len(call_dests) <= 1 and not partial and not mut_borrowed and not (proj and proj[0] == "*")
+            if (proj and proj[0] == "*" and l_ <= fn.nargs and fn.local_ty(l_).startswith("&") and not fn.local_ty(l_).startswith("&mut")) or \
+                    stable_local:
+                same = lambda e, src, bb2: e == enum_ and src["l"] == l_ and json.dumps(src["p"]) == pj
+                allv = fn.term(sws[0]).get("all_variants") or []
+                if allv and all(b not in variants.reach_multi(F, fn, 0, {enum_: v}, scrutinee_ok=same) for v in allv):
+                    return "infeasible-arm", "no variant of %s reaches this arm when the matches on the same value are taken consistently" % enum_.split("::")[-1]
     if kind == "panic" and fn.file in ("src/build/opcode/runtime.rs", "src/build/opcode/vm.rs"):
         # the hooks' own "this cannot happen" for an empty operand stack, wherever in the hook (or a helper of it) it is written
         m = _panic_message(fn, b)
@@ -246,6 +275,55 @@ def r13(F, lsp=False, rid="R13"):
     r.note("%d entry points, %d reachable functions (%d local, non-derived)" % (len(ents), len(reach), len(local)))
     counts = {}
     seen_keys = set()
+    from .. import flatten
+    table_used = {}        # (owner, kind, detail) -> reviewed slots used; the table counts only the sites no idiom discharged
+    flat_ctx = {}
+
+    def owner_of(n):
+        """whose reviewed entries a function's sites may count against, nearest first: a closure is code of its parent, a
+        private helper with one caller is code of that caller, a helper shared by the pieces of one function is code of that
+        function (moving a block into a closure or a helper moves its sites, not their number)"""
+        chain = []
+        cur = n
+        for _ in range(4):
+            nxt = None
+            if "::{closure" in cur:
+                nxt = cur[:cur.index("::{closure")]
+            else:
+                c = flatten.sole_caller(F, cur)
+                if c is not None:
+                    nxt = c
+                else:
+                    callers = {flatten._base(x) for x in flatten._callers(F).get(cur, ())}
+                    if 1 < len(callers) <= flatten.MAX_CALLERS and all(x in F.fns and flatten.helper_like(F, F.fns[x], cur) for x in callers):
+                        ups = {flatten.sole_caller(F, x) for x in callers}
+                        if len(ups) == 1 and None not in ups:
+                            nxt = next(iter(ups))
+            if nxt is None or nxt in chain or nxt == n:
+                break
+            chain.append(nxt)
+            cur = nxt
+        return chain
+
+    def in_callers_context(n, site):
+        """a site of a private helper, looked at where the helper is used: the guard (or the arithmetic that makes it safe) may
+        sit in the caller"""
+        c = flatten.sole_caller(F, n)
+        if c is None:
+            return None
+        if c not in flat_ctx:
+            fl = flatten.flat(F, c)
+            flat_ctx[c] = (fl, Origins(fl), Linear(fl))
+        fl, o2, lin2 = flat_ctx[c]
+        offs = flatten.splice_offsets(fl, n)
+        if not offs:
+            return None
+        kind, detail, b, _, msg = site
+        hows = [discharge_local(F, fl, (kind, detail, boff + b, None, msg), o2, lin2, None) for boff in offs]
+        if all(h is not None for h in hows):
+            return (hows[0][0], hows[0][1] + " (decided in the context of %s, where this helper is spliced in)" % c.split("::")[-1])
+        return None
+
     for n in local:
         fn = F.fns[n]
         sites = panics.sites_of(fn)
@@ -254,7 +332,7 @@ def r13(F, lsp=False, rid="R13"):
         o = Origins(fn)
         lin = Linear(fn)
         ordinal = {}
-        undischarged = {}      # the table counts only the sites no idiom discharged
+        own = owner_of(n)
         for site in sites:
             kind, detail, b, _, msg = site
             base = (n, kind, detail)
@@ -268,9 +346,24 @@ def r13(F, lsp=False, rid="R13"):
                 how = d
             elif kind == "precond" and detail.endswith(("RefCell::borrow", "RefCell::borrow_mut")):
                 how = ("refcell", "RefCell discipline (R97)")
-            elif (n, kind, detail, undischarged.get(base, 0)) in REVIEWED:
-                how = REVIEWED[(n, kind, detail, undischarged.get(base, 0))]
-                undischarged[base] = undischarged.get(base, 0) + 1
+            else:
+                how = in_callers_context(n, site) if own and "::{closure" not in n else None
+                if how is None:
+                    # an index out of bounds is the same panic whether the container is a Vec (`Index::index` call) or a slice
+                    # (`BoundsCheck` assertion): passing `&[T]` instead of `&Vec<T>` does not make a reviewed site a new one
+                    alts = [(kind, detail)]
+                    if kind == "assert" and detail.startswith("BoundsCheck"):
+                        alts.append(("precond", panics_IDX))
+                    elif kind == "precond" and detail == panics_IDX:
+                        alts.append(("assert", "BoundsCheck()"))
+                    for holder, (kind2, detail2) in [(h_, a_) for h_ in dict.fromkeys([n] + own) for a_ in alts]:
+                        tb = (holder, kind2, detail2)
+                        if (holder, kind2, detail2, table_used.get(tb, 0)) in REVIEWED:
+                            how = REVIEWED[(holder, kind2, detail2, table_used.get(tb, 0))]
+                            if holder != n:
+                                how = (how[0], how[1] + " (entry of %s, whose code this is)" % holder.split("::")[-1])
+                            table_used[tb] = table_used.get(tb, 0) + 1
+                            break
             if how is not None:
                 counts[how[0]] = counts.get(how[0], 0) + 1
                 r.inst(key, fn.where(b), True, "%s: %s" % how, nontrivial=how[0] != "usize-counter")
